@@ -195,7 +195,7 @@ func C14Fill(n int, start, step byte) []byte {
 	return out
 }
 
-// C14Tame returns n bytes that are zero except the sixth (start, when n > 6) and the last (01).  Used for the
+// C14Tame returns n zero bytes; when n > 6 the sixth is start and the last is 01.  Used for the
 // byte strings and hashes of C33 catalogue entries: when a neighbouring length prefix is substituted
 // into a 4-byte or big-integer mode, or a count is substituted so that the parse shifts, the bytes that
 // follow are read as lengths; zeros keep the lengths declared inside the deviation neighbourhood small
@@ -203,10 +203,8 @@ func C14Fill(n int, start, step byte) []byte {
 // input cost milliseconds; large declared lengths are the business of the crafted-length phase).
 func C14Tame(n int, start byte) []byte {
 	out := make([]byte, n)
-	if n > 0 {
-		out[n-1] = 1
-	}
 	if n > 6 {
+		out[n-1] = 1
 		out[5] = start // not among the first four bytes: those become the high bytes of a substituted prefix
 	}
 	return out
